@@ -1605,7 +1605,9 @@ impl RunningProgram {
         write!(result, "| register {}({}) {{", bank.label, status)?;
         line_loc += 18;
         for signal in &bank.signals {
-            let name = signal.0.split_at(2).1;
+            // skip the input prefix letter (which need not be ASCII) and the '_'
+            let name_start = signal.0.char_indices().nth(2).map_or(signal.0.len(), |x| x.0);
+            let name = signal.0.split_at(name_start).1;
             let width = signal.2;
             let hex_width = ((width.bits_or_128() + 3) / 4) as usize;
             if line_loc + 2 + hex_width + name.len() >= max_loc {
